@@ -54,12 +54,14 @@ def tree_sha():
     return h.hexdigest()[:16]
 
 
-def run_unit(unit, workdir, rlimit, extra_args=()):
+def run_unit(unit, workdir, rlimit, extra_args=(), auto_items=None, _depth=0):
     """extract + verus. Returns dict(status='ok'|'lost'|'toolerror', ...)"""
     res = dict(unit=unit, failures=[], undecided=[], verified=0, errors=0, smt_ms=0, funcs={}, wall=0.0)
     t0 = time.time()
     try:
-        g = extract.Gen(REPO, unit, os.path.join(VERIF, 'units', unit + '.vrs')).run()
+        g = extract.Gen(REPO, unit, os.path.join(VERIF, 'units', unit + '.vrs'))
+        g.auto_items = dict(auto_items or {})
+        g = g.run()
     except LostAnchor as e:
         res['status'] = 'lost'
         res['undecided'].append('lost anchor in unit %s: %s' % (unit, e))
@@ -189,6 +191,26 @@ def run_unit(unit, workdir, rlimit, extra_args=()):
     if rc == 0 and res['errors'] == 0 and res['verified'] == 0:
         res['undecided'].append('unit %s: zero functions verified (vacuous run)' % unit)
     res['status'] = 'ok'
+    # R19: an unknown UPPER_CASE value that is a static / const of one of the unit's source files is extracted too
+    if res['undecided'] and _depth < 3:
+        want = {}
+        for u in res['undecided']:
+            mm = re.search(r'cannot find value `([A-Z][A-Z0-9_]*)` in this scope', u)
+            if mm:
+                for rel, (txt, _m) in g.files.items():
+                    if re.search(r'\b(static|const)\s+%s\b' % re.escape(mm.group(1)), txt):
+                        want.setdefault(rel, [])
+                        if mm.group(1) not in want[rel]:
+                            want[rel].append(mm.group(1))
+        merged = {k: list(v) for k, v in (auto_items or {}).items()}
+        grew = False
+        for rel, names in want.items():
+            for nm in names:
+                if nm not in merged.setdefault(rel, []):
+                    merged[rel].append(nm)
+                    grew = True
+        if grew:
+            return run_unit(unit, workdir, rlimit, extra_args, merged, _depth + 1)
     return res
 
 
